@@ -59,10 +59,12 @@ type c03lRec = verifkit.Rec
 
 // c03lStep is one schedule line.
 type c03lStep struct {
-	A string `json:"a"` // Cfg | Add | Tick | Deliver | Shutdown | Flap | Drain
+	A string `json:"a"` // Cfg | Add | Tick | Deliver | Shutdown | Fee | Decide | Flap | Drain
 	P string `json:"p"` // A | B (the link that acts / receives)
-	X int    `json:"x"` // Add: 1 = invoice known (settled at the exit), 0 = unknown hash (failed at the exit)
-	Y int    `json:"y"`
+	// Add: 1 = invoice known (settled at the exit), 0 = unknown hash (failed at the exit), 2 = hold invoice;
+	// Fee: sat/kw; Decide: the payment (1-based, in the order of the Add steps)
+	X int `json:"x"`
+	Y int `json:"y"` // Decide: 1 = settle the hold invoice, 0 = cancel it
 }
 
 // c03lMsg is the projection of one wire message.
@@ -163,6 +165,7 @@ func (p *c03lPeer) SendMessage(sync bool, msgs ...lnwire.Message) error {
 	for _, m := range msgs {
 		r.q[p.from] = append(r.q[p.from], m)
 		r.emitted[p.from] = append(r.emitted[p.from], c03lDescribe(m))
+		r.nsent[p.from]++
 	}
 	return nil
 }
@@ -175,6 +178,8 @@ type c03lPay struct {
 	side int
 	seq  int
 	kind int
+	pre  lntypes.Preimage
+	dec  bool // hold invoice: settled / cancelled by a Decide step
 	hash lntypes.Hash
 	mu   sync.Mutex
 	res  string
@@ -206,6 +211,7 @@ type c03lRun struct {
 	events  [2][]string
 	pays    []*c03lPay
 	npay    [2]int
+	nsent   [2]int // messages sent by each side so far
 	recs    []c03lRec
 	abort   string
 	dead    bool // a link reported a failure or left its main loop
@@ -326,14 +332,20 @@ func (r *c03lRun) idle(i int) {
 			return
 		}
 		if mb, ok := s.link.mailBox.(*memoryMailBox); ok {
-			for k := 0; k < 4000; k++ {
+			busy := true
+			for start := time.Now(); busy && time.Since(start) < 30*time.Second; {
 				mb.pktCond.L.Lock()
-				busy := mb.repHead != nil || mb.addHead != nil
+				busy = mb.repHead != nil || mb.addHead != nil
 				mb.pktCond.L.Unlock()
 				if !busy || s.hasExited() {
+					busy = false
 					break
 				}
 				time.Sleep(250 * time.Microsecond)
+			}
+			if busy {
+				r.abort = "link " + s.name + " did not take its mailbox packets"
+				return
 			}
 		}
 		sn := &c03lSentinel{hit: make(chan struct{})}
@@ -342,7 +354,7 @@ func (r *c03lRun) idle(i int) {
 		case <-sn.hit:
 		case <-s.exited:
 			return
-		case <-time.After(10 * time.Second):
+		case <-time.After(30 * time.Second):
 			r.abort = "link " + s.name + " did not take the sentinel"
 			return
 		}
@@ -388,6 +400,7 @@ func (r *c03lRun) project(i int) c03lRec {
 		"lbal": fmt.Sprint(uint64(lc.LocalBalance)), "lrbal": fmt.Sprint(uint64(lc.RemoteBalance)),
 		"rbal": fmt.Sprint(uint64(rc.LocalBalance)), "rrbal": fmt.Sprint(uint64(rc.RemoteBalance)),
 		"rp": 0, "rph": 0, "rphtlc": [][]int{}, "rpbal": "", "rprbal": "",
+		"lfee": int(lc.FeePerKw), "rfee": int(rc.FeePerKw), "rpfee": 0,
 	}
 	if diff, err := st.RemoteCommitChainTip(); err == nil && diff != nil {
 		rec["rp"] = 1
@@ -395,6 +408,7 @@ func (r *c03lRun) project(i int) c03lRec {
 		rec["rphtlc"] = c03lHtlcs(i, diff.Commitment.Htlcs)
 		rec["rpbal"] = fmt.Sprint(uint64(diff.Commitment.LocalBalance))
 		rec["rprbal"] = fmt.Sprint(uint64(diff.Commitment.RemoteBalance))
+		rec["rpfee"] = int(diff.Commitment.FeePerKw)
 	}
 	rec["npl"] = int(ch.NumPendingUpdates(lntypes.Local, lntypes.Remote))
 	rec["npr"] = int(ch.NumPendingUpdates(lntypes.Remote, lntypes.Local))
@@ -455,12 +469,15 @@ func (r *c03lRun) connect(chans [2]*lnwallet.LightningChannel) error {
 			return err
 		}
 	}
-	for k := 0; k < 20000; k++ {
+	for start := time.Now(); ; {
 		r.mu.Lock()
 		n0, n1 := len(r.q[0]), len(r.q[1])
 		r.mu.Unlock()
 		if (n0 > 0 || r.sides[0].hasExited()) && (n1 > 0 || r.sides[1].hasExited()) {
 			break
+		}
+		if time.Since(start) > 30*time.Second {
+			return errors.New("a new link did not send channel_reestablish within 30 s")
 		}
 		time.Sleep(250 * time.Microsecond)
 	}
@@ -507,11 +524,16 @@ func (r *c03lRun) add(i int, kind int) string {
 	}
 	var payAddr [32]byte
 	copy(payAddr[:], hh[:])
-	invoice, htlc, _, err := generatePaymentWithPreimage(c03lHtlcAmt, htlcAmt, timelock, blob, &pre, pay.hash, payAddr)
+	pay.pre = pre
+	invPre := &pre
+	if kind == 2 {
+		invPre = nil // a hold invoice
+	}
+	invoice, htlc, _, err := generatePaymentWithPreimage(c03lHtlcAmt, htlcAmt, timelock, blob, invPre, pay.hash, payAddr)
 	if err != nil {
 		return "harness: " + err.Error()
 	}
-	if kind == 1 {
+	if kind >= 1 {
 		if err := o.server.registry.AddInvoice(context.Background(), *invoice, pay.hash); err != nil {
 			return "harness: " + err.Error()
 		}
@@ -600,6 +622,73 @@ func (r *c03lRun) deliver(i int) (c03lMsg, string) {
 	return d, "ok"
 }
 
+// decide: the receiver's invoice registry settles / cancels the hold invoice of payment n (1-based).  A link
+// that is in its main loop is given the time to react (it sends update_fulfill / update_fail) before the step
+// is recorded; after a time-out the step is recorded as it is, for the trace spec to judge.
+func (r *c03lRun) decide(n int, settle bool) string {
+	if n < 1 || n > len(r.pays) {
+		return "nopayment"
+	}
+	pay := r.pays[n-1]
+	i := 1 - pay.side
+	s := r.sides[i]
+	running := s.link.isReestablished() && !s.hasExited()
+	r.mu.Lock()
+	m0 := r.nsent[i]
+	r.mu.Unlock()
+	var err error
+	if settle {
+		err = s.server.registry.SettleHodlInvoice(context.Background(), pay.pre)
+	} else {
+		err = s.server.registry.CancelInvoice(context.Background(), pay.hash)
+	}
+	if err != nil {
+		return "err: " + err.Error()
+	}
+	pay.dec = true
+	if running {
+		deadline := time.Now().Add(8 * time.Second)
+		for time.Now().Before(deadline) && !s.hasExited() {
+			r.mu.Lock()
+			done := r.nsent[i] > m0 || len(r.fails[i]) > 0
+			r.mu.Unlock()
+			if done {
+				break
+			}
+			time.Sleep(250 * time.Microsecond)
+		}
+	}
+	return "ok"
+}
+
+// fee: the update-fee timer of link i fires and the fee estimator answers `rate` (what the link then does is
+// its own business: handleUpdateFee -> updateChannelFee on the initiator).
+func (r *c03lRun) fee(i int, rate int) string {
+	s := r.sides[i]
+	if !s.link.isReestablished() || s.hasExited() {
+		return "notready"
+	}
+	if !s.link.channel.IsInitiator() {
+		return "notinitiator"
+	}
+	s.link.updateFeeTimer.Reset(time.Millisecond)
+	for k, ch := range []chan chainfee.SatPerKWeight{r.hn.feeEstimator.byteFeeIn, r.hn.feeEstimator.relayFee} {
+		v := chainfee.SatPerKWeight(rate)
+		if k == 1 {
+			v = chainfee.FeePerKwFloor
+		}
+		select {
+		case ch <- v:
+		case <-s.exited:
+			return "exited"
+		case <-time.After(10 * time.Second):
+			r.abort = "link " + s.name + " did not sample the fee estimator"
+			return "stuck"
+		}
+	}
+	return "ok"
+}
+
 func (r *c03lRun) tickStep(i int) string {
 	s := r.sides[i]
 	if !s.tick.active.Load() || s.hasExited() {
@@ -673,6 +762,12 @@ func c03lExec(t *testing.T, name string, run int, steps []c03lStep) []c03lRec {
 		case "Shutdown":
 			res := r.shutdown(i, true)
 			r.line("Shutdown", st.P, 0, 0, c03lMsg{K: "none"}, res)
+		case "Fee":
+			res := r.fee(i, st.X)
+			r.line("Fee", st.P, st.X, 0, c03lMsg{K: "none"}, res)
+		case "Decide":
+			res := r.decide(st.X, st.Y == 1)
+			r.line("Decide", st.P, st.X, st.Y, c03lMsg{K: "none"}, res)
 		case "Flap":
 			if err := r.flap(); err != nil {
 				r.abort = "flap: " + err.Error()
@@ -721,11 +816,12 @@ func c03lExec(t *testing.T, name string, run int, steps []c03lStep) []c03lRec {
 	}
 	// the end: payment results as the senders' switches report them (a short grace period for the
 	// switch's own goroutines), invoice states at the receivers
-	deadline := time.Now().Add(2 * time.Second)
+	deadline := time.Now().Add(20 * time.Second)
 	for alive && time.Now().Before(deadline) {
 		pend := false
 		for _, p := range r.pays {
-			if p.get() == "pending" {
+			// (the sender of an undecided hold invoice keeps waiting: that is no reason to wait here)
+			if p.get() == "pending" && !(p.kind == 2 && !p.dec) {
 				pend = true
 			}
 		}
